@@ -351,6 +351,11 @@ class Engine:
                 return ("new", ck, e.lineno, tuple(args))
             if f.id in ("tuple", "list") and len(args) == 1 and args[0][0] == "tuple":
                 return args[0]
+            lk = ("l", fr["id"], f.id)
+            if lk in p.store and f.id not in PURE_BUILTINS:
+                r = ("calldyn", p.store[lk], tuple(args), e.lineno)
+                p.effects.append(r)
+                return r
             if f.id in PURE_BUILTINS:
                 return ("call", f.id, tuple(args), e.lineno)
             callee = M.funcs.get(f"{fr['fn'].mod}.{f.id}")
@@ -583,6 +588,11 @@ class Engine:
                 return [(p, ("new", ck, e.lineno, tuple(args)))]
             if f.id in PURE_BUILTINS or f.id in ("tuple", "list"):
                 return [(p, self.call_expr(e, p, fr))]
+            lk = ("l", fr["id"], f.id)
+            if lk in p.store:  # call through a local variable holding a function value
+                r = ("calldyn", p.store[lk], tuple(args), e.lineno)
+                p.effects.append(r)
+                return [(p, r)]
             callee = M.funcs.get(f"{fr['fn'].mod}.{f.id}")
         if callee is not None and callee.name in self.no_inline:
             p.effects.append(("call", callee.qual, tuple(args), e.lineno))
